@@ -130,6 +130,9 @@ class ModuleAwareEvaluator(Evaluator):
         if isinstance(e, ast.Name) and e.id not in env and e.id not in self.globals and e.id in self.prog.classes \
                 and e.id not in self.classes:
             return self.type_token(e.id)
+        if isinstance(e, ast.Attribute) and isinstance(e.value, ast.Name) and e.value.id not in env and e.value.id in self.prog.classes \
+                and _is_enum_class(self.prog, e.value.id) and e.attr in self.prog.classes[e.value.id].attrs:
+            return _enum_member(e.value.id, e.attr)           # HeaderState.PARSED: one object per member, compared with `is` / ==
         if isinstance(e, ast.Attribute) and e.attr == "__class__":
             base = self.expr(e.value, env)
             if isinstance(base, Obj) and "__class__" not in base.__dict__:
@@ -147,6 +150,21 @@ class ModuleAwareEvaluator(Evaluator):
             if isinstance(v, Obj) and nm in self.prog.classes and v._cls in self.prog.classes and self.prog.is_sub(v._cls, nm):
                 return True
         return super()._isinstance(v, texpr)
+
+
+_ENUM_MEMBERS: Dict[tuple, Obj] = {}
+
+
+def _is_enum_class(prog: Program, name: str) -> bool:
+    c = prog.classes.get(name)
+    return c is not None and any(b.split(".")[-1] in ("Enum", "IntEnum", "StrEnum", "Flag") for b in c.bases)
+
+
+def _enum_member(cls: str, name: str) -> Obj:
+    key = (cls, name)
+    if key not in _ENUM_MEMBERS:
+        _ENUM_MEMBERS[key] = Obj(cls, name=name, value=name, _enum=True)
+    return _ENUM_MEMBERS[key]
 
 
 class StubContext:
@@ -262,8 +280,23 @@ def run_rule(prog: Program, cls_name: str, sc: StubContext, method: str = "run",
         if c in seen or c not in prog.classes:
             continue
         seen.add(c)
-        for a, v in class_constants(prog.classes[c]).items():
+        consts = class_constants(prog.classes[c])
+        for a, v in consts.items():
             me.__dict__.setdefault(a, v)
+        # class-level tables that mention the class's own functions (a dispatch dictionary of handlers): evaluated with those
+        # names standing for callables that interpret the function (they are called with the instance passed explicitly)
+        for a, val in prog.classes[c].attrs.items():
+            if a in consts or a in me.__dict__ or not isinstance(val, (ast.Dict, ast.Tuple, ast.List)):
+                continue
+            env_c = {}
+            for mn, fn_ in prog.classes[c].methods.items():
+                env_c[mn] = (lambda *a_, _n=fn_.node, **k_: ev.invoke(_n, list(a_), k_))
+            for a2, v2 in consts.items():
+                env_c.setdefault(a2, v2)
+            try:
+                me.__dict__[a] = ev.expr(val, env_c)
+            except (Unsupported,) + RUNTIME_ERRORS:
+                pass
         todo.extend(prog.classes[c].bases)
     return ev.invoke(m.node, [me, sc.obj] + list(extra_args), {})
 
